@@ -35,7 +35,7 @@ BAD_PLUGIN = {
     "can_c": {"over-64": 'version: "3"\nstruct A { x @0: u8, }\nstruct W { a @0: u64, b @1: u1, }\nimpl can for A { id: 1, device: "ecu", }\nimpl can for W { id: 2, device: "ecu", }\n', "unknown-struct": 'version: "3"\nstruct A { x @0: u8, }\nimpl can for A { id: 1, }\nimpl can for Zz { id: 2, }\n'},
 }
 
-DIR_STATES = ("empty", "stale-output", "unrelated", "stale-h", "subdir", "missing")
+DIR_STATES = ("empty", "stale-output", "unrelated", "stale-h", "subdir", "missing", "same-but-lf")
 
 
 def make_dir_state(root, state, future_names):
@@ -47,6 +47,13 @@ def make_dir_state(root, state, future_names):
         for n in future_names[:2] or ["default.fcp"]:
             with open(os.path.join(out, n), "w") as f:
                 f.write("STALE " + n + "\n" + "/* stale tail that is longer than any generated file */\n" * 20000)
+    elif state == "same-but-lf":
+        # an earlier output that differs from the new one only in its line terminators
+        for n, text in (future_names if isinstance(future_names, dict) else {}).items():
+            p = os.path.join(out, n)
+            os.makedirs(os.path.dirname(p), exist_ok=True)
+            with open(p, "w", newline="") as f:
+                f.write(text.replace("\r\n", "\n") if "\r\n" in text else text.replace("\n", "\r\n"))
     elif state == "unrelated":
         with open(os.path.join(out, "notes.txt"), "w") as f:
             f.write("keep me\n")
@@ -97,6 +104,20 @@ def expected_files(gen_name, fcp_text, scratch):
     return files
 
 
+def raw_files(gen_name, fcp_text, scratch):
+    """{relpath: exact contents} returned by the plug-in (unmasked)."""
+    import importlib
+    from fcp.parser import get_fcp_from_string
+    from fcp.error import Logger
+
+    fcp = get_fcp_from_string(fcp_text, Logger({})).unwrap()
+    out = os.path.join(scratch, "raw-out")
+    with contextlib.redirect_stdout(io.StringIO()):
+        results = importlib.import_module("fcp_" + gen_name).Generator().generate(fcp, {"output": out, "templates": {}, "skels": {}})
+    shutil.rmtree(out, ignore_errors=True)
+    return {os.path.normpath(os.path.relpath(str(r["path"]), out)): str(r["contents"]) for r in results if r.get("type") == "file"}
+
+
 class FaultVerifier:
     """Built lazily (needs fcp imported): a Verifier whose k-th check evaluation fails."""
 
@@ -131,6 +152,21 @@ def make_fault_verifier(fail_at):
     for cat, checks in gv.checks.items():
         for c in checks:
             fv.register(c, None if cat == "uncategorized" else cat)
+    # one more (always passing) check at the END of every category, as any plug-in may register:
+    # every registered check must see every node of its category, whatever its position
+    fv.extra_seen = {}
+    for cat in fv.categories:
+        if cat == "uncategorized":
+            continue
+
+        def extra(a, b, node, _cat=cat):
+            fv.extra_seen[_cat] = fv.extra_seen.get(_cat, 0) + 1
+            from fcp.result import Ok
+
+            return Ok(())
+
+        extra.__name__ = "fcpmc_extra_" + cat
+        fv.register(extra, cat)
     return fv
 
 
@@ -199,6 +235,8 @@ def make_worker(tier):
             root = tempfile.mkdtemp(prefix="fcpmc-c10-")
             try:
                 future = sorted(expected_files(gen_name, GOOD["can1"], root))
+                if dstate == "same-but-lf":
+                    future = raw_files(gen_name, text, root)
                 out = make_dir_state(root, dstate, future)
                 before = snapshot(out)
                 inp = {"generator": gen_name, "schema": sname, "text": text, "dir_state": dstate, "ops": (["fail_eval=%d" % k] if k is not None else [])}
@@ -211,6 +249,18 @@ def make_worker(tier):
                 S.add("outcomes", (kind, verdict.split(":")[0]))
                 if kind == "accept":
                     judge_accept(S, inp, gen_name, text, before, out, root, verdict, detail, dstate)
+                    # every check of a category is evaluated on every node of that category
+                    from fcp.parser import get_fcp_from_string as _p
+                    from fcp.error import Logger as _L
+
+                    tree = _p(text, _L({})).unwrap()
+                    for cat, seen in sorted(fv.extra_seen.items()):
+                        want = len(tree.get(cat).unwrap())
+                        if seen != want:
+                            S.violation("C10.gate", "C10.gate/registered-check-not-run-on-every-node/%s" % cat, inp, expected={"category": cat, "nodes": want}, actual={"evaluations_of_the_last_check": seen})
+                    for cat in fv.categories:
+                        if cat != "uncategorized" and cat not in fv.extra_seen and len(tree.get(cat).unwrap()):
+                            S.violation("C10.gate", "C10.gate/registered-check-not-run-on-every-node/%s" % cat, inp, expected={"category": cat, "nodes": len(tree.get(cat).unwrap())}, actual={"evaluations_of_the_last_check": 0})
                 elif kind == "fault":
                     if fv.fired is None:
                         S.violation("harness", "harness/fault-point-not-reached", inp, actual={"evals": fv.evals, "k": k})
